@@ -68,10 +68,11 @@ func (m *haltMonitor) After(c *Chain, w *World, br *BlockResult, outs []TxOutcom
 	}
 	if br.Halt != nil {
 		sig := haltSignature(br.Halt)
+		gov := ""
 		if m.govOriginated {
-			sig += "/after-governance-proposal"
+			gov = " (an accepted governance proposal precedes the halt)"
 		}
-		return pbt.Violf(sig, "block %d: %s failed: %s\n%s", br.Height, br.Halt.Phase, br.Halt.Err, firstLines(br.Halt.Stack, 25))
+		return pbt.Violf(sig, "block %d: %s failed: %s%s\n%s", br.Height, br.Halt.Phase, br.Halt.Err, gov, firstLines(br.Halt.Stack, 25))
 	}
 	if br.Finalize != nil {
 		for _, ev := range br.Finalize.Events {
